@@ -376,7 +376,9 @@ def trace_stage(ctx, name, cmds, module, nontrivial=None, timeout=None, keep=Fal
         for ln, exp in mis:
             ev = json.loads(lines[ln - 1]) if 0 < ln <= len(lines) else {"op": "?"}
             mismatches.append({"file": os.path.basename(f), "line": ln, "event": ev, "expected": exp})
-    demo = binding_demo(module, files[0]) if files and os.path.getsize(files[0]) > 0 else None
+    # the demonstration re-validates a falsified copy of one trace: take the smallest non-empty shard
+    nonempty = sorted((f for f in files if os.path.getsize(f) > 0), key=os.path.getsize)
+    demo = binding_demo(module, nonempty[0]) if nonempty else None
     if demo and demo["missed"]:
         print(f"WARNING: binding demonstration for stage {name}: falsified events accepted by the specification: {demo['missed']}", file=sys.stderr)
     missing = [c for c in (require or []) if not any(k == c or k.startswith(c) for k in classes)]
@@ -480,6 +482,10 @@ def binding_demo(module, path, timeout=300):
     for i, l in enumerate(lines):
         ev = json.loads(l)
         op = ev.get("op")
+        if isinstance(ev.get("cases"), list) and len(ev["cases"]) > 400:
+            # batch events with tens of thousands of corruption cases: a prefix is enough for the demonstration
+            ev["cases"] = ev["cases"][:400]
+            l = json.dumps(ev)
         if op not in done or (done[op] < 2 and i - chosen[op] > 20):
             c = _corrupt(ev)
             if c is not None:
